@@ -19,6 +19,10 @@ CLAIMS = {
             "Theorems C03_unpack_ref / C03_field_unpacker: for every input (arbitrary JSON-like data), class table and type of the grammar the generated unpacker returns exactly what the reference decoder returns and fails exactly when the reference is undefined (str iterating characters, dict iterating keys, surplus tuple items and unknown keys ignored, constant positions). Closed under the global context.",
             "Trusted: Coq kernel; TyModel.v (model of unpack.py decisions) tied by per-run vm_compute correspondence; stdlib constructors are oracle tables; conformance of results to the annotation (exact classes) and NamedTuple/TypedDict/abstract collections are decided by the implementation oracle only.",
             "4 C03"),
+    "C05": ("Coq proof (outcome-set, first-bad-field, exact-extra-keys, no-silent-default theorems over all field lists, inputs and decoder behaviours) over a hand-written field-loop model; vm_compute correspondence; AST shape check of every generated from_dict; direct oracle with corruption stream",
+            "Proof (partial): C05_outcomes_partial, C05_first_bad, C05_extra_exact_partial, C05_no_silent_default_partial, C05_union_outcomes, C05_discr_partial (17 theorems, closed under the global context) for classes with >=1 init field, unions without a None member, discriminators on mapping inputs with hashable tags; the leak sites are _refuted theorems and known findings. Input immutability is checked by the oracle, not proved.",
+            "Trusted: Coq kernel + vm_compute; hand-written Errs.v tied by ~1.1k (quick) / 20k (thorough) correspondence cases per run plus the AST shape check of generated code; harness materialiser/encoders; Python semantics of dict.get, isinstance, bare except and except Exception modelled, not verified.",
+            "4 C05"),
 }
 
 ALL = [f"C{i:02d}" for i in range(1, 21)]
